@@ -250,17 +250,47 @@ func (a *app) serve(m, p string) ([]int, map[string]string, bool) {
 	return a.trace, a.seen, a.nf
 }
 
-func instance(path string) string {
-	// group and route paths only use static segments and {name} placeholders
-	var out []string
-	for _, s := range strings.Split(strings.TrimPrefix(path, "/"), "/") {
-		if strings.HasPrefix(s, "{") {
-			out = append(out, "v-"+strings.Trim(s, "{}"))
-		} else {
-			out = append(out, s)
+// probes returns request paths for a full route path: instances of it (both
+// forms when the last segment is optional) and near misses that only a
+// pattern different from the declared one would admit.
+func probes(path string) []string {
+	d := rt.Deriv(path)
+	build := func(segs []model.Seg, variant int) string {
+		var out []string
+		for _, s := range segs {
+			k, binds, _ := s.Classify()
+			switch k {
+			case model.KStatic:
+				lit := ""
+				if len(s.Elems) == 1 {
+					lit = s.Elems[0].Lit
+				}
+				out = append(out, lit)
+			case model.KPlaceholder:
+				out = append(out, "v-"+binds[0])
+			case model.KMatchAll:
+				out = append(out, []string{"a/b", "a/b/c", "a"}[variant%3])
+			case model.KRegex:
+				out = append(out, []string{"42", "abc", "4x"}[variant%3])
+			}
+		}
+		return "/" + strings.Join(out, "/")
+	}
+	seen := map[string]bool{}
+	var ps []string
+	add := func(p string) {
+		if !seen[p] {
+			seen[p] = true
+			ps = append(ps, p)
 		}
 	}
-	return "/" + strings.Join(out, "/")
+	for v := 0; v < 3; v++ {
+		add(build(d.Segs, v))
+		if n := len(d.Segs); d.Segs[n-1].Optional {
+			add(build(d.Segs[:n-1], v))
+		}
+	}
+	return ps
 }
 
 func checkCase(c Case) (out evid.Outcome) {
@@ -299,24 +329,31 @@ func checkCase(c Case) (out evid.Outcome) {
 		expect[fr.M+" "+fr.Path] = fr.IDs
 	}
 	for _, path := range order {
-		inst := instance(path)
-		for _, m := range model.Methods {
-			out.Sub++
-			pt, pp, pnf := p.serve(m, inst)
-			qt, qp, qnf := q.serve(m, inst)
-			want, registered := expect[m+" "+path]
-			desc := fmt.Sprintf("%s %s (route %q)", m, inst, path)
-			if registered == pnf {
-				return fail(out, "dispatch", "%s: flat expansion registered=%v but the program's not-found ran=%v; program %s", desc, registered, pnf, js(c))
-			}
-			if fmt.Sprint(pt) != fmt.Sprint(want) {
-				return fail(out, "handlers", "%s: program ran handlers %v, flat expansion is %v; program %s", desc, pt, want, js(c))
-			}
-			if fmt.Sprint(qt) != fmt.Sprint(want) || qnf == registered {
-				return fail(out, "flat-instance", "%s: the flat instance ran %v (not-found=%v), expectation %v", desc, qt, qnf, want)
-			}
-			if registered && len(want) > 0 && rt.Show(pp) != rt.Show(qp) {
-				return fail(out, "params", "%s: parameters %s in the program, %s in the flat instance", desc, rt.Show(pp), rt.Show(qp))
+		for _, inst := range probes(path) {
+			for _, m := range model.Methods {
+				out.Sub++
+				pt, pp, pnf := p.serve(m, inst)
+				qt, qp, qnf := q.serve(m, inst)
+				desc := fmt.Sprintf("%s %s (probe of route %q)", m, inst, path)
+				// P against Q (the flat instance decides what a probe must do:
+				// both run the same matcher, only the way of declaring differs)
+				if pnf != qnf || fmt.Sprint(pt) != fmt.Sprint(qt) {
+					return fail(out, "program-vs-flat", "%s: the program ran handlers %v (not-found=%v), its flat expansion ran %v (not-found=%v); program %s", desc, pt, pnf, qt, qnf, js(c))
+				}
+				if !pnf && len(pt) > 0 && rt.Show(pp) != rt.Show(qp) {
+					return fail(out, "params", "%s: parameters %s in the program, %s in the flat instance", desc, rt.Show(pp), rt.Show(qp))
+				}
+				// the first probe is an instance of the route: flatten says exactly
+				// which handlers run for which method
+				if inst == probes(path)[0] {
+					want, registered := expect[m+" "+path]
+					if registered == pnf {
+						return fail(out, "dispatch", "%s: flat expansion registered=%v but the program's not-found ran=%v; program %s", desc, registered, pnf, js(c))
+					}
+					if fmt.Sprint(pt) != fmt.Sprint(want) {
+						return fail(out, "handlers", "%s: program ran handlers %v, flat expansion is %v; program %s", desc, pt, want, js(c))
+					}
+				}
 			}
 		}
 	}
@@ -412,12 +449,23 @@ var nonGet = []string{"POST", "PUT", "DELETE", "PATCH", "OPTIONS", "CONNECT", "T
 func (g *gstate) routePath(t *rapid.T) string {
 	g.routeN++
 	p := fmt.Sprintf("/r%d", g.routeN)
-	switch rapid.IntRange(0, 4).Draw(t, "rp") {
+	switch rapid.IntRange(0, 8).Draw(t, "rp") {
 	case 0:
 		g.bindN++
 		p += fmt.Sprintf("/{b%d}", g.bindN)
 	case 1:
 		p += "/x"
+	case 2:
+		g.bindN++
+		p += fmt.Sprintf("/{b%d: /[0-9]+/}", g.bindN)
+	case 3:
+		g.bindN++
+		p += fmt.Sprintf("/{b%d: **, capture: 2}/end", g.bindN)
+	case 4:
+		g.bindN++
+		p += fmt.Sprintf("/?{b%d}", g.bindN)
+	case 5:
+		p += "/?opt"
 	}
 	return p
 }
